@@ -500,7 +500,8 @@ def _gen_str(constant_provider: ConstantProvider) -> cst.BaseExpression:
         seeded = constant_provider.get_constant_for(str)
         if seeded is not None:
             return cst.SimpleString(repr(seeded))
-    length = randomness.next_int(0, tc.string_length)
+    # string_length is an exclusive bound; a bound of zero leaves the empty string
+    length = randomness.next_int(0, max(1, tc.string_length))
     return cst.SimpleString(repr(randomness.next_string(length)))
 
 
@@ -536,9 +537,11 @@ def _gen_list(
     Returns:
         A ``cst.List`` node, empty or with 1-3 (possibly seeded) elements.
     """
-    if randomness.next_bool():
+    max_count = min(3, config.configuration.test_creation.collection_size)
+    if max_count < 1 or randomness.next_bool():
+        # also the only collection within a maximum size of zero
         return cst.List(elements=[])
-    count = randomness.next_int(1, min(3, config.configuration.test_creation.collection_size) + 1)
+    count = randomness.next_int(1, max_count + 1)
     elems = [
         cst.Element(value=_element_value(constant_provider, element_pool)) for _ in range(count)
     ]
@@ -561,9 +564,11 @@ def _gen_set(
     Returns:
         A ``cst.Call`` (empty) or ``cst.Set`` (non-empty) node.
     """
-    if randomness.next_bool():
+    max_count = min(3, config.configuration.test_creation.collection_size)
+    if max_count < 1 or randomness.next_bool():
+        # also the only collection within a maximum size of zero
         return cst.Call(func=cst.Name("set"))
-    count = randomness.next_int(1, min(3, config.configuration.test_creation.collection_size) + 1)
+    count = randomness.next_int(1, max_count + 1)
     elems = [
         cst.Element(value=_element_value(constant_provider, element_pool)) for _ in range(count)
     ]
@@ -583,9 +588,11 @@ def _gen_tuple(
     Returns:
         A ``cst.Tuple`` node, empty or with 1-3 (possibly seeded) elements.
     """
-    if randomness.next_bool():
+    max_count = min(3, config.configuration.test_creation.collection_size)
+    if max_count < 1 or randomness.next_bool():
+        # also the only collection within a maximum size of zero
         return cst.Tuple(elements=[])
-    count = randomness.next_int(1, min(3, config.configuration.test_creation.collection_size) + 1)
+    count = randomness.next_int(1, max_count + 1)
     raw_elems = [
         cst.Element(value=_element_value(constant_provider, element_pool)) for _ in range(count)
     ]
